@@ -242,6 +242,9 @@ func (c *Client) WriteBytes(b []byte) error {
 // Encode renders a request frame with the reference codec (the bytes a driver would send).
 func (c *Client) Encode(stream int16, msg message.Message, mod func(f *frame.Frame)) ([]byte, error) {
 	f := frame.NewFrame(c.Version, stream, msg)
+	if c.Compression != "" && f.Header.OpCode != primitive.OpCodeStartup && f.Header.OpCode != primitive.OpCodeOptions {
+		f.SetCompress(true) // what a driver does once compression was negotiated
+	}
 	if mod != nil {
 		mod(f)
 	}
